@@ -32,10 +32,11 @@ import net_gen, vlib, time
 def gen2(seed, tier):
     n = 150 if tier == "quick" else 5000
     return net_gen.generate(seed * 5 + 1, tier, "mixed", n // 3) + net_gen.generate(seed * 5 + 2, tier, "tcp_heavy", n // 3) \
-        + net_gen.generate(seed * 5 + 3, tier, "udp", n // 3)
+        + net_gen.generate(seed * 5 + 3, tier, "udp", n // 3) \
+        + net_gen.generate_default_config(seed * 5 + 4, tier, n // 3)
 
 ROUTES = ScenarioCheck("C09", ["SimVerif.Props.C09"], "kernel", gen2, delay.check, nontrivial,
-    "whole simulations (UDP datagrams, TCP handshakes, segments, ACKs, retransmissions) over routes of an access queue, an optional NAT/dropper, a network queue and an access queue: every packet seen at the sender's first-hop probe and at the receiver's last-hop probe must take at least the sum of latency + size/bandwidth of the queues in between (C09_route_lower_bound); the world model predicts every probe observation exactly",
+    "whole simulations (UDP datagrams, TCP handshakes, segments, ACKs, retransmissions) over routes of an access queue, an optional NAT/dropper, a network queue and an access queue: every packet seen at the sender's first-hop probe and at the receiver's last-hop probe must take at least the sum of latency + size/bandwidth of the queues in between (C09_route_lower_bound); the world model predicts every probe observation exactly; plus the same programs on the library's own sim::default_config (declared `config default`: network 30 ms, per-address modem queues 200 kB/s out / 800 kB/s in, 1 ms, 200 kB), where API results and completion times must match the model built from those constants",
     TRUSTED, ASSUME, spec_scn=True)
 
 def run(tier, seed, replay):
